@@ -97,6 +97,13 @@ CLAIMS['C20'] = ('bounded symbolic execution (CrossHair/z3) of Config/merged_dat
                  'the resolved value comes from the most specific layer, other keys keep their built-in value, built-in tables and caller '
                  'dictionaries are unchanged; the same order is observed through expand() output.', '§3 C20')
 
+CLAIMS['C07'] = ('bounded symbolic execution (CrossHair/z3) of the whole real expand() over all short strings, and over abbreviations assembled from '
+                 'solver-chosen multi-character pieces, under 16 configurations',
+                 'Every ASCII string up to the stated length through tokenizer, parser, converter, resolvers and formatters under the engine '
+                 '(markup), stylesheet tokenizer+parser likewise, and every sequence of up to K pieces covering all token classes of both '
+                 'languages under 16 option sets: the call returns a string or raises one of the two parse errors with an in-range position.',
+                 '§3 C07')
+
 NOT_YET = {}
 
 
